@@ -70,6 +70,12 @@ theorem handlers_locked :
   decide
 #print axioms handlers_locked
 
+/-- No code path releases or re-takes the request mutex other than through the canonical
+    `Lock(); defer Unlock()` pair that opens a critical section (so a critical section, once
+    entered, extends to the end of the handler - what `single_lock_serialisable` assumes). -/
+theorem no_irregular_mutex_use : Gen.irregularMutexUse = [] := by decide
+#print axioms no_irregular_mutex_use
+
 /-- every LSP method the property quantifies over is registered (so the table covers them) -/
 theorem handlers_cover :
     ∀ m ∈ ["textDocument/hover", "textDocument/definition", "textDocument/references",
